@@ -91,7 +91,7 @@ impl Prop for C15 {
 
     fn profiles(tier: Tier) -> Vec<Profile> {
         match tier {
-            Tier::Quick => vec![prof("sim", 12_000)],
+            Tier::Quick => vec![prof("sim", 48_000)],
             Tier::Thorough => vec![prof("sim", 500_000)],
         }
     }
